@@ -238,6 +238,105 @@ pub fn run(tier: Tier) -> i32 {
         }
         ctx.scope_done("marker-with-unfinished-coder", n, t1, "");
     }
+    // ---------------------------------------------------------------- the end marker is the reserved distance, whatever length code
+    // accompanies it (encoders write the minimal one; the format - and liblzma - accept any): no size in effect => Ok with
+    // the full output; a size in effect equal to the data => Ok; trailing bytes after it => Err
+    {
+        let t3 = Instant::now();
+        let lens: Vec<u32> = tier.pick(vec![2u32, 3, 9, 10, 17, 18, 100, 273], (2..=273u32).collect());
+        let mut n = 0u64;
+        for (lc, lp, pb) in [(3u32, 0u32, 2u32), (0, 0, 0)] {
+            for (pi, prog) in progs.iter().enumerate().take(12) {
+                for &l in &lens {
+                    let mut p = prog.clone();
+                    p.push(Sym::EL(l));
+                    let e = enc::encode(lc, lp, pb, u64::MAX, &p);
+                    let nlen = e.expect.len() as u64;
+                    for (what, hfield, trailing, want_ok) in [("no size", None, false, true), ("size = data", Some(nlen), false, true), ("no size + 1 trailing byte", None, true, false)] {
+                        let mut bytes = enc::lzma_file(lc, lp, pb, 1 << 16, hfield, &e.payload);
+                        if trailing {
+                            bytes.push(0);
+                        }
+                        for stream in [false, true] {
+                            let case = if stream {
+                                let mut ops: Vec<SOp> = bytes.chunks(5).map(|c| SOp::WriteAll(Hex(c.to_vec()))).collect();
+                                ops.push(SOp::Finish);
+                                Case::Stream { opts: Opts::default(), sk: Sk::default(), ops }
+                            } else {
+                                Case::Dec { fmt: Fmt::Lzma, opts: Opts::default(), input: Hex(bytes.clone()), rd: Rd::default(), sk: Sk::default() }
+                            };
+                            let o = run_case(&case);
+                            n += 1;
+                            ctx.eval(1);
+                            ctx.nontriv(1);
+                            let all_ok = if o.ops.is_empty() { o.v.is_ok() } else { o.ops.iter().all(|r| r.v.is_ok()) };
+                            let any_err = if o.ops.is_empty() { o.v.is_err() } else { o.ops.iter().any(|r| r.v.is_err()) && !o.ops.iter().any(|r| r.v.is_panic()) };
+                            let ok = if want_ok { all_ok && o.out.0 == e.expect } else { any_err };
+                            if !ok {
+                                ctx.violation(&case, &format!("program #{} + end marker with match length {} ({}) lc={} lp={} pb={} via {}: {}", pi, l, what, lc, lp, pb, if stream { "Stream" } else { "one-shot" }, if want_ok { format!("Ok with the {} bytes of the program", nlen) } else { "Err".into() }), &o, None);
+                            }
+                        }
+                    }
+                }
+            }
+        }
+        ctx.scope_done("end-marker-with-any-length-code", n, t3, "");
+    }
+    // ---------------------------------------------------------------- the size rules do not interact with a memory limit that the window
+    // satisfies: 5000 bytes through a 4096-byte dictionary with limits between the dictionary size and the output size
+    {
+        let t4 = Instant::now();
+        let mut prog: Vec<Sym> = (0..200u32).map(|i| Sym::L((i * 7 + 3) as u8)).collect();
+        let mut produced = 200usize;
+        let mut k = 0u32;
+        while produced < 5000 {
+            let l = (5000 - produced).min(200 + (k as usize * 13) % 70);
+            if l >= 2 {
+                prog.push(Sym::M(1 + (k * 19) % 190, l as u32));
+                produced += l;
+            } else {
+                prog.push(Sym::L(k as u8));
+                produced += 1;
+            }
+            k += 1;
+        }
+        let e = enc::encode(3, 0, 2, 4096, &prog);
+        let mut pm = prog.clone();
+        pm.push(Sym::E);
+        let em = enc::encode(3, 0, 2, 4096, &pm);
+        let mut n = 0u64;
+        for m in [4096u64, 4097, 4500, 4999, 5000, 5001, 1 << 20] {
+            for (what, size, bytes, want_ok) in [
+                ("size 5000 in the header", SizeOpt::Header, enc::lzma_file(3, 0, 2, 4096, Some(5000), &e.payload), true),
+                ("size 4999 in the header (ends inside the last copy)", SizeOpt::Header, enc::lzma_file(3, 0, 2, 4096, Some(4999), &e.payload), false),
+                ("ReadHeaderButUseProvided(Some(5000)), header says 7", SizeOpt::HeaderProvided(Some(5000)), enc::lzma_file(3, 0, 2, 4096, Some(7), &e.payload), true),
+                ("no size, end marker", SizeOpt::Header, enc::lzma_file(3, 0, 2, 4096, None, &em.payload), true),
+                ("UseProvided(Some(5000)), 5-byte header", SizeOpt::Provided(Some(5000)), { let mut f = enc::lzma_header(3, 0, 2, 4096, None); f.truncate(5); f.extend_from_slice(&e.payload); f }, true),
+            ] {
+                for stream in [false, true] {
+                    let opts = Opts { size, memlimit: Some(m), allow_incomplete: false };
+                    let case = if stream {
+                        let mut ops: Vec<SOp> = bytes.chunks(37).map(|c| SOp::WriteAll(Hex(c.to_vec()))).collect();
+                        ops.push(SOp::Finish);
+                        Case::Stream { opts, sk: Sk::default(), ops }
+                    } else {
+                        Case::Dec { fmt: Fmt::Lzma, opts, input: Hex(bytes.clone()), rd: Rd::default(), sk: Sk::default() }
+                    };
+                    let o = run_case(&case);
+                    n += 1;
+                    ctx.eval(1);
+                    ctx.nontriv(1);
+                    let all_ok = if o.ops.is_empty() { o.v.is_ok() } else { o.ops.iter().all(|r| r.v.is_ok()) };
+                    let any_err = if o.ops.is_empty() { o.v.is_err() } else { o.ops.iter().any(|r| r.v.is_err()) && !o.ops.iter().any(|r| r.v.is_panic()) };
+                    let ok = if want_ok { all_ok && o.out.0 == e.expect } else { any_err };
+                    if !ok {
+                        ctx.violation(&case, &format!("5000 bytes through a 4096-byte dictionary, memory limit {} (the window never needs more than 4096), {} via {}: {}", m, what, if stream { "Stream" } else { "one-shot" }, if want_ok { "Ok with exactly the 5000 bytes" } else { "Err" }), &o, None);
+                    }
+                }
+            }
+        }
+        ctx.scope_done("size-rules-under-a-satisfied-memory-limit", n, t4, "");
+    }
     // ---------------------------------------------------------------- the marker of an earlier call does not excuse a later one
     // (raw decoder without a size: marker-terminated stream, then - with and without reset - an input that ends
     // without a marker at a point where the range coder is "finished": the five coder start bytes 00 00 00 00 00)
